@@ -19,7 +19,7 @@ RULE = (
     "reports it (tables the library warns it does not write are exempt). API-built documents: "
     "any subset of {row_height(r,h), col_width(c,w) with integer points 5..500, header counts, table/sheet names, caption text, "
     "caption/name visibility, coordinates via add_table(x,y)} with and without border strokes (widths 0.25..8) on the sized rows/"
-    "columns, drawn before the sizes are set. Oracle: G(table) = (row heights, column widths, height, width, coordinates, header "
+    "columns, drawn before the sizes are set; each built document is also produced a second way - tables created, the handle saved once, and only then names, header counts, borders, sizes, captions and flags set - and saved again. Oracle: G(table) = (row heights, column widths, height, width, coordinates, header "
     "counts, names, caption, flags); G after save+reopen == G of the source (fresh open, everything queried) for every query vector, "
     "and every further cycle leaves G unchanged (no drift); for built documents G_before is taken on the open document with all "
     "getters called, the same history is then replayed with the generated query vector; sizes set through the API must be reported "
@@ -206,15 +206,28 @@ def has_borders(doc):
 # ------------------------------------------------------------------------------------------
 # API-built documents
 
-def build(spec):
+def build(spec, early_save=None):
+    """early_save: a path - the tables are first created under provisional names and header counts, the document is saved once
+    from this handle, and only then is everything else (final names, header counts, borders, sizes, captions, flags) set."""
     from numbers_parser import RGB, Border, Document
 
-    doc = Document(sheet_name=spec["sheet_name"], table_name=spec["tables"][0]["name"], num_rows=spec["tables"][0]["rows"], num_cols=spec["tables"][0]["cols"],
-                   num_header_rows=spec["tables"][0]["hr"], num_header_cols=spec["tables"][0]["hc"])
+    prov = (lambda ts: (ts["name"] + " (draft)", 0, 0)) if early_save else (lambda ts: (ts["name"], ts["hr"], ts["hc"]))
+    n0, hr0, hc0 = prov(spec["tables"][0])
+    doc = Document(sheet_name=spec["sheet_name"], table_name=n0, num_rows=spec["tables"][0]["rows"], num_cols=spec["tables"][0]["cols"],
+                   num_header_rows=hr0, num_header_cols=hc0)
     sheet = doc.sheets[0]
     for i, ts in enumerate(spec["tables"]):
         if i > 0:
-            sheet.add_table(ts["name"], ts.get("x"), ts.get("y"), ts["rows"], ts["cols"], ts["hr"], ts["hc"])
+            n, hr, hc = prov(ts)
+            sheet.add_table(n, ts.get("x"), ts.get("y"), ts["rows"], ts["cols"], hr, hc)
+    if early_save:
+        doc.save(early_save)
+        for i, ts in enumerate(spec["tables"]):
+            t = sheet.tables[i]
+            t.name = ts["name"]
+            t.num_header_rows = ts["hr"]
+            t.num_header_cols = ts["hc"]
+    for i, ts in enumerate(spec["tables"]):
         t = sheet.tables[i]
         for (r, c, side, width, length) in ts["borders"]:
             t.set_cell_border(r, c, side, Border(float(width), RGB(10, 20, 30), "solid"), length)
@@ -243,7 +256,7 @@ def check_built(ctx, case):
             warnings.simplefilter("ignore")
 
             def run(query, tag):
-                doc = build(spec)
+                doc = build(spec, early_save=(tmp / f"{tag}_early.numbers") if tag == "c" else None)
                 g_open = geometry(doc, query)
                 p = tmp / f"{tag}0.numbers"
                 doc.save(p)
@@ -265,6 +278,13 @@ def check_built(ctx, case):
             if res is None:
                 return
             _, gs_b = res
+            res = ctx.guard(("C16", "built_raised", "saved_before_settings"), case, run, None, "c")
+            if res is None:
+                return
+            g_open_c, gs_c = res
+        d = gdiff(g_before, g_open_c)
+        if d:
+            ctx.fail(("C16", "built", "saved_before_settings", "open"), case, "the same settings applied after an early save of the handle are reported differently: " + " | ".join(d[:4]))
         bord = any(ts["borders"] for ts in spec["tables"])
         tagb = "with_borders" if bord else "no_borders"
         # sizes set through the API are reported as set (open document)
@@ -291,13 +311,13 @@ def check_built(ctx, case):
                 got = gb["flags"][int(k[-1])] if k.startswith("flags") else gb[k]
                 if got != w:
                     ctx.fail(("C16", "built", "set_value_not_reported", k), case, f"table {i}: {k} set to {w!r}, reported {got!r}")
-        for tag, gs, q in (("all_queried", gs_a, None), ("generated_query", gs_b, case["query"])):
+        for tag, gs, q in (("all_queried", gs_a, None), ("generated_query", gs_b, case["query"]), ("saved_before_settings", gs_c, None)):
             for cycle, g in enumerate(gs):
                 ctx.ev()
                 d = gdiff(g_before, g)
                 if d:
                     unq = q is not None and not any(q[:2])
-                    ctx.fail(("C16", "built", "unqueried" if unq else "queried", tagb, "first_cycle" if cycle == 0 else "drift", *kinds(d)), case,
+                    ctx.fail(("C16", "built", "saved_before_settings" if tag == "saved_before_settings" else "unqueried" if unq else "queried", tagb, "first_cycle" if cycle == 0 else "drift", *kinds(d)), case,
                              f"built document, {tag} {q}, cycle {cycle}: " + " | ".join(d[:4]))
         ctx.count("built_documents")
         ctx.count("built_" + tagb)
